@@ -57,8 +57,8 @@ count only the histories of the additional depth).
 
 Measured on this sandbox (load 20-30 on 16 cores, 6 workers):
 quick     272,651 histories, 4,414 outcome signatures, ~570 CPU-s (est. 40-45 s wall on 16 idle cores)
-thorough  see evidence; the previous 12-configuration / 23-event version took 3,078,736
-          histories and ~9,400 CPU-s, this one is ~1.8x that (est. 10-15 min on 16 idle cores)
+thorough  5,354,076 histories, 4,314,590 states, 7,939 outcome signatures, ~12,300 CPU-s
+          (38 min wall with 6 workers; est. 13-15 min on 16 idle cores)
 """
 import html as _html
 import io
